@@ -385,8 +385,11 @@ def run(ctx, replay=None):
 CLAIMED = True
 TECHNIQUE = ("Lean 4 proof: hand model (generic in the bit width, C++ promotions/conversions/UB explicit) = arithmetic spec "
              "for all values; model tied to the code by exhaustive 8/16-bit + boundary/random 32/64-bit correspondence run")
-LEVEL_TEXT = ("Each modelled function is proved in Lean 4, for every width w and every argument of the documented domain, to "
-              "return (never an error = never UB/overflow) exactly the value of its mathematical definition. The model is tied "
+LEVEL_TEXT = ("popcount (fallback), countl_zero, bit_width, bit_floor, bit_ceil, rotl, rotr, test_bit, add_sat (builtin and fallback "
+              "path), div_sat, saturate_cast, midpoint, gcd, lcm, abs (both), idiv, ipow<2>, ilog2, the six cmp_* and in_range are "
+              "proved in Lean 4, for every bit width w / every pair of integer types and every argument of the documented domain, "
+              "to return (never an error = never UB, never an overflow-dependent value) exactly the value of their mathematical "
+              "definition; the remaining functions (coverage.correspondence_only) are compared differentially only. The model is tied "
               "to the current source on every run by running model and implementation (builtin and portable-fallback paths) on "
               "the same inputs under ASan/UBSan: all 8-bit values and pairs, all 16-bit values, boundary/random 32/64-bit "
               "values, rotation counts -130..130, all 100 type pairs for the mixed-type functions; the spec is validated "
@@ -396,7 +399,7 @@ LEVEL_NOTE = ("Trusted: Lean kernel + propext/Classical.choice/Quot.sound; the h
               "are listed in evidence coverage.correspondence_only and are covered by the differential run only.")
 # functions modelled and compared on every run but without a Lean theorem yet
 CORRESPONDENCE_ONLY = ["countl_one", "countr_zero", "countr_one", "has_single_bit", "byteswap", "byteswap_fallback",
-                       "set_bit", "reset_bit", "flip_bit", "test_bit", "ipow", "ipow<2>", "ntoh", "hton"]
+                       "set_bit", "reset_bit", "flip_bit", "ipow", "ntoh", "hton"]
 THEOREMS = {
     "popcount": ["C14.Props.popcount_eq"], "popcount_fb": ["C14.Props.popcountFallback_eq"],
     "countl_zero": ["C14.Props.countlZero_eq"], "bit_width": ["C14.Props.bitWidth_eq"],
@@ -407,5 +410,6 @@ THEOREMS = {
     "abs": ["C14.Props.absT_eq"], "mabs": ["C14.Props.absM_eq"], "ilog2": ["C14.Props.ilog2_eq"],
     "cmp": ["C14.Props.cmpEqual_eq", "C14.Props.cmpNotEqual_eq", "C14.Props.cmpLess_eq", "C14.Props.cmpGreater_eq",
             "C14.Props.cmpLessEqual_eq", "C14.Props.cmpGreaterEqual_eq"],
+    "test_bit": ["C14.Props.testBit_eq"], "ipow2": ["C14.Props.ipow2_eq"],
     "in_range": ["C14.Props.inRange_eq"], "saturate_cast": ["C14.Props.saturateCast_eq"],
 }
